@@ -85,7 +85,72 @@ def run(ctx):
         linear(ctx, prog)
     consumer(ctx, ctx.program("FULL"))
     ctx.floor("LINEAR", 20)
-    ctx.floor("CONSUMER", 9)
+    ctx.floor("CONSUMER", 11)
+
+
+def unwind_window(bdy):
+    from .. import typestate
+    reach = bdy.reachable()
+    S, Dn, owner = [], [], set()
+    for bb, i, st in bdy.assigns():
+        pl = st["place"]
+        if len(pl["p"]) == 2 and pl["p"][0]["k"] == "field" and pl["p"][0].get("name") == "array" and pl["p"][1]["k"] == "index":
+            S.append((bb, i))
+            owner.add(pl["l"])
+        if len(pl["p"]) == 1 and pl["p"][0]["k"] == "field" and pl["p"][0].get("name") in ("taken_back", "taken_front"):
+            Dn.append((bb, i))
+            owner.add(pl["l"])
+    if len(owner) != 1:
+        return "the slots and the counters written do not belong to one local value"
+    this = owner.pop()
+
+    def drops_this(bb):
+        seen = set()
+        st = [bb]
+        while st:
+            x = st.pop()
+            if x in seen or not isinstance(x, int):
+                continue
+            seen.add(x)
+            t = bdy.blocks[x]["term"]
+            if t["k"] == "drop" and t["place"]["l"] == this:
+                return True
+            st.extend(bdy.term_succs(t))
+        return False
+    # walk every way through the function, keeping the balance (slots written) - (slots newly covered by a counter update) since
+    # entry; the invariant `covered slots are written` holds at entry (nothing written, nothing covered by the fresh value), so the
+    # balance may never be negative where a call can unwind into a drop of the value, and must be zero again wherever the walk
+    # returns to a point it has already seen (one slot, one update per round) and at the end
+    Sset, Dset = set(S), set(Dn)
+    start = typestate._first_point(bdy, 0)
+    seen = {}
+    work = [(start, 0)]
+    while work:
+        pt, bal = work.pop()
+        if pt in Sset:
+            bal += 1
+        if pt in Dset:
+            bal -= 1
+        if pt in seen:
+            if seen[pt] != bal:
+                return "a round of the loop does not write exactly as many slots as its counter updates newly cover"
+            continue
+        seen[pt] = bal
+        if abs(bal) > 2:
+            return "the counters and the written slots drift apart"
+        bb, i = pt
+        if i == "term":
+            t = bdy.blocks[bb]["term"]
+            if t["k"] == "call" and isinstance(t.get("unwind"), int) and bal < 0 and drops_this(t["unwind"]):
+                name = t["callee"]["path"] if t.get("callee") else "an indirect call"
+                return ("`%s` can unwind while the counter already covers a slot that is written only afterwards: the value's Drop would "
+                        "then drop an element that was never initialised" % name)
+            if t["k"] == "return" and bal != 0:
+                return "returns with %d slot(s) %s" % (abs(bal), "written but not covered (leaked)" if bal > 0 else "covered but never written")
+        for q in typestate._point_succ(bdy, bdy.succ, pt):
+            if q[0] in reach:
+                work.append((q, bal))
+    return None
 
 
 def strip_casts(t):
@@ -344,3 +409,10 @@ def consumer(ctx, prog):
             if stores != 1 or decs != 1:
                 ctx.violation("CONSUMER", "clone", "ArrayConsumer::clone must store each cloned element once and shrink taken_back once per element (stores=%d, updates=%d)" % (stores, decs), bdy.file())
             ctx.instance("CONSUMER", "clone")
+            # unwind window: the half-built clone is dropped if `T::clone` (or anything else in the loop) panics, and its Drop covers
+            # [taken_front, N - taken_back).  A counter update that comes *before* the store of the slot it newly covers opens a
+            # window in which that slot is covered but unwritten; no call that unwinds into a drop of the clone may lie inside it.
+            msg = unwind_window(bdy)
+            if msg:
+                ctx.violation("CONSUMER", "clone|unwind", "ArrayConsumer::clone: %s" % msg, bdy.file())
+            ctx.instance("CONSUMER", "clone|unwind")
